@@ -249,12 +249,15 @@ def main():
     if mfn:
         ob = mfn.end(); cb = matching_brace(stackless, ob)
         body = re.sub(r'\s', '', stackless[ob + 1:cb])
-        pinned = ('func_body.iter().filter_map(|stmt|match&stmt.value{LowerStmt::Instr(LowerInstr{args:LowerArgs::Known(args),..})=>Some(args),_=>None'
-                  '}).flat_map(|args|args.iter().filter_map(|arg|match&arg.value{LowerArg::Raw(raw)=>raw.get_reg_id().map(|reg|(reg,arg.span)),_=>None,})).collect()')
-        if body == pinned:
-            deep = False
-        elif 'LowerArg::DiffSwitch' in body and 'LowerArg::Raw' in body and 'get_reg_id' in body and 'LowerArgs::Known' in body:
-            deep = True     # recurses into difficulty switches (fixes/c05-diffswitch-explicit-regs.diff or equivalent)
+        fixed = ('fnvisit(arg:&Sp<LowerArg>,out:&mutBTreeMap<RegId,Span>){match&arg.value{LowerArg::Raw(raw)=>{ifletSome(reg)=raw.get_reg_id(){out.insert(reg,arg.span);}},'
+                 'LowerArg::DiffSwitch(cases)=>{forcaseincases.iter().flatten(){visit(case,out);}},_=>{},}}'
+                 'letmutout=BTreeMap::new();forstmtinfunc_body{ifletLowerStmt::Instr(LowerInstr{args:LowerArgs::Known(args),..})=&stmt.value{forarginargs{visit(arg,&mutout);}}}out')
+        old = ('func_body.iter().filter_map(|stmt|match&stmt.value{LowerStmt::Instr(LowerInstr{args:LowerArgs::Known(args),..})=>Some(args),_=>None'
+               '}).flat_map(|args|args.iter().filter_map(|arg|match&arg.value{LowerArg::Raw(raw)=>raw.get_reg_id().map(|reg|(reg,arg.span)),_=>None,})).collect()')
+        if body == fixed:
+            deep = True      # every Raw argument, also inside the cases of difficulty switches (commit 4000fd0)
+        elif body == old:
+            deep = False     # the scan before 4000fd0: top-level arguments only (defect #3)
         else:
             unrec('get_explicitly_used_regs body: %s' % body[:120])
     else:
